@@ -23,9 +23,9 @@ PROPS = {
     "C15": {"profiles": ["faults", "hostile", "parents", "trait-repeat", "unknowns"], "n_quick": 2400},
     "C16": {"profiles": ["hostile", "enum-prim", "tree", "faults", "parents", "unknowns", "member-instrs"], "n_quick": 3000},
     "C17": {"profiles": ["struct-flat", "enum", "tree", "trait-params", "generics", "shape-change"], "n_quick": 1800},
-    "C18": {"profiles": ["hostile", "struct-flat", "enum", "tree"], "n_quick": 1600, "backends": ["s1", "s2"]},
-    "C19": {"profiles": ["faults", "hostile", "multi-counterpart"], "n_quick": 1500},
-    "C20": {"profiles": ["expr", "struct-flat", "enum", "tree"], "n_quick": 1500},
+    "C18": {"profiles": ["hostile", "struct-flat", "enum", "tree", "unknowns"], "n_quick": 1800, "backends": ["s1", "s2"]},
+    "C19": {"profiles": ["faults", "hostile", "multi-counterpart", "trait-repeat"], "n_quick": 1500},
+    "C20": {"profiles": ["expr", "struct-flat", "enum", "tree", "parents"], "n_quick": 1500},
 }
 
 RULES = {
@@ -183,7 +183,7 @@ def oracle_c13(cases, results, seed, thorough):
     fails = []
     r = random.Random(seed + 99)
     items = []
-    for k, prof in enumerate(["struct-flat", "enum", "tree", "trait-params", "repeat"]):
+    for k, prof in enumerate(["struct-flat", "enum", "tree", "trait-params", "repeat", "unknowns"]):
         items += gen.gen_items(prof, seed * 1000 + 700 + k, 150 if not thorough else 2000)
     base, resp = [], []
     for it in items:
@@ -456,6 +456,9 @@ def oracle_c11(cases, seed, thorough):
             if im["undeclared_lifetimes"]:
                 fails.append({"source": src[i], "what": "impl header uses a lifetime that the impl does not declare: '" + im["undeclared_lifetimes"][0]})
                 break
+            if im.get("declared_twice"):
+                fails.append({"source": src[i], "what": "the impl declares a generic parameter twice: " + im["declared_twice"][0]})
+                break
             st = re.sub(r"::", "", im["self_ty"])
             if re.search(r"<[^<>]*(:|=|\bconst\b)", st):
                 fails.append({"source": src[i], "what": "the deriving type is not applied in argument form: bounds / defaults / `const` appear in its argument list", "detail": im["self_ty"]})
@@ -716,6 +719,7 @@ FAULTS = [
     ("unknown-own", "is not supported."),
     ("ghost-no-default", "should provide default value for type"),
     ("child-no-parents", "Missing #[child_parents(...)] instruction for"),
+    ("repeat-param-conflict", "will be overriden. Did you forget to use 'skip_repeat'?"),
 ]
 
 
@@ -790,6 +794,17 @@ def inject_fault(it, kind, r):
         f = r.choice(cands)
         f.attrs = [a for a in f.attrs if a.name not in ("child", "parent")]
         f.attrs.insert(r.randrange(len(f.attrs) + 1), gen.Instr("child", "zq_base"))
+    elif kind == "repeat-param-conflict":
+        # a repeat template that covers a parameter kind, followed by an instruction of the same name that sets that
+        # parameter itself without `skip_repeat` (whether or not the template sets it)
+        nm = r.choice(["from_owned", "owned_into", "map", "from", "ref_into"])
+        what = r.choice(["vars", "update", "quick_return"] + (["default_case"] if it2.kind == "enum" else []))
+        param = {"vars": "vars(zq: { 1 })", "update": "..zq_base()", "quick_return": "return zq(@)", "default_case": "_ => zq()"}[what]
+        cover = r.choice(["repeat()", f"repeat({what})", f"repeat({what})"])
+        tmpl_has = r.random() < 0.4
+        t1 = "Zq5 | " + cover + (", " + param if tmpl_has else "")
+        it2.attrs.append(gen.Instr(nm, t1, tag=("trait", "Zq5")))
+        it2.attrs.append(gen.Instr(nm, "Zq6 | " + param, tag=("trait", "Zq6")))
     return it2
 
 
@@ -812,7 +827,7 @@ def oracle_c15(cases, seed, thorough):
         removers = ("no-trait-instr", "dup-default-where", "dup-default-ghosts", "ghost-no-default", "child-no-parents")
         ks.sort(key=lambda k: 0 if k[0] in removers else 1)
         names2 = [k[0] for k in ks]
-        if len(ks) == 2 and "no-trait-instr" in names2 and any(x in ("dup-instr", "missing-err", "extra-err", "ghost-no-default", "child-no-parents") for x in names2):
+        if len(ks) == 2 and "no-trait-instr" in names2 and any(x in ("dup-instr", "missing-err", "extra-err", "ghost-no-default", "child-no-parents", "repeat-param-conflict") for x in names2):
             ks = [k for k in ks if k[0] == "no-trait-instr"]
         if len(ks) == 2 and {ks[0][0], ks[1][0]} == {"dup-default-where", "unknown-cpart-where"}:
             ks = ks[:1]
@@ -831,7 +846,7 @@ def oracle_c15(cases, seed, thorough):
         o = outs2[i]
         if o[0] in ("LIBERR", "PANIC"):
             continue
-        if o[0] == "ERR" and len(o[1]) == 1:
+        if o[0] == "ERR" and len(o[1]) == 1 and not all(text in o[1][0] for _, text in ks):
             continue  # a parse-stage o2o diagnostic (single message) pre-empts validation: known limitation, see KNOWN_FINDINGS C15-parse-stage
         n += 1
         msgs = o[1] if o[0] == "ERR" else ()
@@ -884,8 +899,23 @@ def oracle_c14(cases, seed, thorough):
     fails = []
     items = gen.gen_items("repeat", seed * 1000 + 450, 500 if not thorough else 6000)
     pairs = []
+    REP = ("repeat", "skip_repeat", "stop_repeat")
     for it in items:
-        if it.kind != "struct" or not any(a.name in ("repeat", "skip_repeat", "stop_repeat") for f in it.fields for a in f.attrs):
+        if it.kind == "enum":
+            # variant-level repeat: the variants are the members; payload members must not take part
+            if not any(a.name in REP for v in it.variants for a in v.attrs):
+                continue
+            if any(a.name in REP or a.name == "as_type" for v in it.variants for f in v.fields for a in f.attrs):
+                continue
+            w = write_out_members(it.variants)
+            if w is None:
+                continue
+            it2 = copy.deepcopy(it)
+            for v, attrs in zip(it2.variants, w):
+                v.attrs = attrs
+            pairs.append((it.meta["id"], gen.render(it), gen.render(it2)))
+            continue
+        if it.kind != "struct" or not any(a.name in REP for f in it.fields for a in f.attrs):
             continue
         if any(a.name == "as_type" for f in it.fields for a in f.attrs):
             continue  # a repeated as_type keeps the origin member's type in its cast: documented exception
@@ -909,7 +939,7 @@ def oracle_c14(cases, seed, thorough):
     return fails, n
 
 
-RT_FAMILY = {"C01": "flat", "C07": "flat", "C08": "flat", "C02": "enum", "C03": "tree", "C09": "prim"}
+RT_FAMILY = {"C01": "flat", "C07": "flat7", "C08": "flat", "C02": "enum", "C03": "tree", "C09": "prim", "C17": "hints"}
 
 
 def oracle_rt(prop, seed, thorough):
@@ -958,14 +988,16 @@ def run_oracle(prop, cases, results, seed, thorough, disagreements):
             out["name"] = "metamorphic: adding an instruction for a kind nobody requested leaves the real expansion unchanged"
             out["failures"], out["evaluated"] = oracle_c05(cases, seed, thorough)
         elif prop == "C15":
-            out["name"] = "fault injection (14 documented misuse classes, single and paired, random position and spelling) on the real derive"
+            out["name"] = "fault injection (15 documented misuse classes, single and paired, random position and spelling) on the real derive"
             out["failures"], out["evaluated"] = oracle_c15(cases, seed, thorough)
         elif prop == "C14":
             out["name"] = "metamorphic: member-level repeat vs the harness's own written-out form on the real derive"
             out["failures"], out["evaluated"] = oracle_c14(cases, seed, thorough)
         elif prop == "C17":
-            out["name"] = "syn-2 `File` parse + shape inspection of the real output of every accepted case"
-            out["failures"], out["evaluated"] = oracle_c17(cases, seed, thorough)
+            out["name"] = "syn-2 `File` parse + shape inspection of the real output of every accepted case + runtime tie (designed programs with nested counterparts of mixed shapes must be accepted by rustc)"
+            f17, n17 = oracle_c17(cases, seed, thorough)
+            out["failures"] += f17
+            out["evaluated"] = n17 + out["runtime_tie"]["conversions_compared"]
         elif prop == "C04":
             out["name"] = "impl headers of the real output (parsed with syn 2) vs the documented impl set of the instructions"
             out["failures"], out["evaluated"] = oracle_c04(cases, seed, thorough)
